@@ -251,11 +251,14 @@ fn hostleg_violations(property: &str) -> usize {
         "C10" => "hostdet.json",
         _ => return 0,
     };
-    std::fs::read_to_string(format!("{}/out/{}", home(), file))
-        .ok()
-        .and_then(|s| serde_json::from_str::<serde_json::Value>(&s).ok())
-        .and_then(|v| v.get("violations").and_then(|x| x.as_array()).map(|a| a.len()))
-        .unwrap_or(0)
+    let count = |file: &str| {
+        std::fs::read_to_string(format!("{}/out/{}", home(), file))
+            .ok()
+            .and_then(|s| serde_json::from_str::<serde_json::Value>(&s).ok())
+            .and_then(|v| v.get("violations").and_then(|x| x.as_array()).map(|a| a.len()))
+            .unwrap_or(0)
+    };
+    count(file) + if property == "C14" { count("e2eleg.json") } else { 0 }
 }
 
 fn spawn_worker(property: &str, tier: &str, mask: Option<&str>) -> Child {
